@@ -40,6 +40,17 @@ theorem guards_v30 : guardsB opTable_v30 = true := by decide +kernel
 theorem guards_v20 : guardsB opTable_v20 = true := by decide +kernel
 theorem guards_v10 : guardsB opTable_v10 = true := by decide +kernel
 
+/-- hence no accepted input chains two optional-once operators of one guard class (`a = b = c`, `a eq b ne c`,
+`a is b is c`, `1 to 2 to 3` are rejected; the laxity L3 of F04b is confined to chains *across* classes
+and to `<<` / `>>`) — 3.1; the other versions are the same statement over their tables -/
+theorem no_same_class_chain_v31 (toks : List Tok) (t : Tree) (h : parse (tableOf opTable_v31) toks = .ok t) :
+    anyNode (sameClassChain fun o => guardClass (symOf opTable_v31 o)) t = false :=
+  wfr_no_chain _ _ (guardsComplete_of_check _ guards_v31) t (pratt_wfr _ toks t h)
+
+theorem no_same_class_chain_v20 (toks : List Tok) (t : Tree) (h : parse (tableOf opTable_v20) toks = .ok t) :
+    anyNode (sameClassChain fun o => guardClass (symOf opTable_v20 o)) t = false :=
+  wfr_no_chain _ _ (guardsComplete_of_check _ guards_v20) t (pratt_wfr _ toks t h)
+
 /-! ### hence: every accepted token list is parsed into a (relaxed) derivation with that yield -/
 
 theorem derives_v31 (toks : List Tok) (t : Tree) (h : parse (tableOf opTable_v31) toks = .ok t) :
